@@ -100,12 +100,13 @@ def write_coqproject():
                        stdout=subprocess.DEVNULL, stderr=subprocess.DEVNULL)
 
 
-def make(targets, timeout=1500):
+def make(targets, timeout=1500, keep_going=False):
     """Full .vo build of the given targets (relative to coq/), incremental. Raises BuildError."""
     lk = _lock()
     try:
         write_coqproject()
-        cmd = ["timeout", str(timeout), "make", f"-j{JOBS}", "--no-print-directory"] + list(targets)
+        cmd = ["timeout", str(timeout), "make", f"-j{JOBS}", "--no-print-directory"] + \
+              (["-k"] if keep_going else []) + list(targets)
         r = subprocess.run(cmd, cwd=COQ, stdout=subprocess.PIPE, stderr=subprocess.STDOUT, text=True)
         if r.returncode != 0:
             raise BuildError("make failed: " + " ".join(targets), r.stdout[-6000:])
